@@ -94,9 +94,11 @@ class Output(BaseOutput):
             self.output_period = -self.output_period
         logger.info("  Output period: %s", str(self.output_period))
 
-        self.num_records = int(
-            abs((timer.stop_time - timer.start_time) // self.output_period)
-        )
+        # Number of output steps in the time loop: steps 0, p, 2p, ... < Nsteps
+        # (the initial record is not written again after a warm start)
+        self.num_records = int(-(-timer.Nsteps // self.output_period_step))
+        if skip_initial:
+            self.num_records -= 1
         # if not skip_initial:  # Add an initial record
         #     self.num_records += 1
         logger.info("  Number of records: %s", self.num_records)
